@@ -4,7 +4,7 @@ FullAlphabet == {"1", "2", "+", "-", "n", "s", "u", "m", "h", "d", "w", "o", "y"
 \* grammar-directed alphabet: longer strings that are mostly well formed
 TermAlphabet == {"1", "2", "-", "s", "m", "h", "d", "o", "y", "n"}
 \* sub-second terms that reach whole seconds
-SubsecAlphabet == {"T", "K", "2", "-", "m", "s", "u", "n"}
+SubsecAlphabet == {"T", "K", "Z", "2", "-", "m", "s", "u", "n"}
 EmitDur ==
     st \in {"ok", "err", "beyond"} =>
       PrintT(<<"REPLAY", ToJson([op |-> "dur", s |-> s, outcome |-> st, wf |-> WellFormed(s),
